@@ -57,14 +57,12 @@ Definition st0 : st := {| c_first := []; c_next := []; c_valid := []; c_recent :
 Inductive query :=
 | QOn (p : Z) | QValid (p : Z) | QPrev (p : Z) | QNPrev (p : Z) | QNext (p : Z)
 | QNextOn (p : Z) | QFirst (p : Z) | QStart | QStop.
-Inductive ans := ABool (b : bool) | APt (o : option Z)
-  | ANonePoint.   (* the point ISO8601Point('None') that get_stop_point can return *)
+Inductive ans := ABool (b : bool) | APt (o : option Z).
 
 Definition ans_eqb (a b : ans) : bool :=
   match a, b with
   | ABool x, ABool y => Bool.eqb x y
   | APt x, APt y => option_eqb Z.eqb x y
-  | ANonePoint, ANonePoint => true
   | _, _ => false
   end.
 
@@ -291,23 +289,12 @@ Section Seq.
     | e :: r => if excl e then scan_start r else Ok (Some e)
     end.
 
-  (* curr / prev after the loop over the whole recurrence; the last point is
-     replaced by the one before it when it is excluded — without looking
-     whether that one is excluded too (this is the code as it stands). *)
-  Definition get_stop : res ans :=
+  (* ret = None; for p in recurrence: if p not excluded: ret = p; return ret *)
+  Definition get_stop : res (option Z) :=
     if bounded then
       bind (at_end tt) (fun _ =>
-        match rev enum with
-        | [] => Ok ANonePoint
-        | c :: rest =>
-            if excl c then
-              match rest with
-              | pv :: _ => Ok (APt (Some pv))
-              | [] => Ok ANonePoint
-              end
-            else Ok (APt (Some c))
-        end)
-    else Ok (APt None).
+        Ok (fold_left (fun acc e => if excl e then acc else Some e) enum None))
+    else Ok None.
 
   (* ---- the API ---- *)
   Definition query_point (q : query) : option Z :=
@@ -330,7 +317,7 @@ Section Seq.
     | QNextOn p => bind (gnpos fuel0 p) (fun o => Ok (APt o, s))
     | QFirst p => bind (get_first s p) (fun '(o, s') => Ok (APt o, s'))
     | QStart => bind (scan_start enum) (fun o => Ok (APt o, s))
-    | QStop => bind get_stop (fun a => Ok (a, s))
+    | QStop => bind get_stop (fun o => Ok (APt o, s))
     end.
 
   (* a session: queries in order on one object; an exception ends it *)
